@@ -19,13 +19,17 @@ EXTENDS Integers
 \* @type: (Int, Int) => Int;
 FMax(a, b) == IF a >= b THEN a ELSE b
 
+\* never divide by a literal zero, also in branches that are not taken (constant simplifiers evaluate them)
+\* @type: (Int) => Int;
+Nz(t) == IF t = 0 THEN 1 ELSE t
+
 \* EIP-1559 step for a positive target t (or used = t).
 \* @type: (Int, Int, Int) => Int;
 StepAt(b, used, t) ==
   IF used = t THEN b
   ELSE IF used > t
-    THEN b + FMax(((b * (used - t)) \div t) \div 8, 1)
-    ELSE FMax(b - (((b * (t - used)) \div t) \div 8), 0)
+    THEN b + FMax(((b * (used - t)) \div Nz(t)) \div 8, 1)
+    ELSE FMax(b - (((b * (t - used)) \div Nz(t)) \div 8), 0)
 
 \* The same with the astronomically large target of an unlimited block.
 \* @type: (Int, Int) => Int;
